@@ -59,7 +59,33 @@ type c07Unexported struct {
 	B int
 }
 
+// embedded fields of kinds the struct walker does not expect
+type C07Inner struct{ A int }
+type C07NamedInt int
+type C07NamedSlice []int
+type C07Iface interface{ M() }
+type c07EmbedsPtr struct {
+	*C07Inner
+	X int
+}
+type c07EmbedsNamedInt struct {
+	C07NamedInt
+	X int
+}
+type c07EmbedsNamedSlice struct {
+	C07NamedSlice
+	X int
+}
+type c07EmbedsIface struct {
+	C07Iface
+	X int
+}
+
 var c07Templates = map[string]func() interface{}{
+	"embeds-ptr":            func() interface{} { return c07EmbedsPtr{} },
+	"embeds-named-int":      func() interface{} { return c07EmbedsNamedInt{} },
+	"embeds-named-slice":    func() interface{} { return c07EmbedsNamedSlice{} },
+	"embeds-iface":          func() interface{} { return c07EmbedsIface{} },
 	"nil":                   func() interface{} { return nil },
 	"[]interface":           func() interface{} { return []interface{}{} },
 	"map[iface]":            func() interface{} { return map[interface{}]interface{}{} },
@@ -111,35 +137,40 @@ var c07TemplateNames = sortedKeys(c07Templates)
 
 // values for the marshal side (beyond G-VAL): unsupported kinds in every position
 var c07Values = map[string]func() interface{}{
-	"chan":              func() interface{} { return make(chan int) },
-	"nil-chan":          func() interface{} { var c chan int; return c },
-	"func":              func() interface{} { return func() {} },
-	"nil-func":          func() interface{} { var f func(); return f },
-	"complex64":         func() interface{} { return complex64(complex(1, 2)) },
-	"complex128":        func() interface{} { return complex(1, 2) },
-	"struct-chan":       func() interface{} { return c07BadStruct{A: 1, C: make(chan int)} },
-	"*struct-chan":      func() interface{} { return &c07BadStruct{A: 1} },
-	"map-chan":          func() interface{} { return map[string]chan int{"a": nil} },
-	"map-func":          func() interface{} { return map[string]func(){"a": func() {}} },
-	"[]func":            func() interface{} { return []func(){nil, func() {}} },
-	"[]iface-chan":      func() interface{} { return []interface{}{1, make(chan int), "x"} },
-	"map-iface-complex": func() interface{} { return map[string]interface{}{"a": complex(1, 1)} },
-	"unsafeptr":         func() interface{} { return unsafe.Pointer(nil) },
-	"uintptr":           func() interface{} { return uintptr(7) },
-	"map[float]int":     func() interface{} { return map[float64]int{1.5: 1} },
-	"map[iface]int":     func() interface{} { return map[interface{}]int{1.5: 1, "a": 2} },
-	"map[struct]int":    func() interface{} { return map[c07Unexported]int{{B: 1}: 1} },
-	"map[[2]int]int":    func() interface{} { return map[[2]int]int{{1, 2}: 1} },
-	"map[*int]int":      func() interface{} { return map[*int]int{new(int): 1} },
-	"unexported":        func() interface{} { return c07Unexported{a: 1, B: 2} },
-	"[2]complex":        func() interface{} { return [2]complex64{} },
-	"nil":               func() interface{} { return nil },
-	"nil-iface-slice":   func() interface{} { return []interface{}{nil, nil} },
-	"typed-nil-ptr":     func() interface{} { var p *c07BadStruct; return p },
-	"ptr-to-ptr-chan":   func() interface{} { c := make(chan int); p := &c; return &p },
-	"struct{}":          func() interface{} { return struct{}{} },
-	"[0]chan":           func() interface{} { return [0]chan int{} },
-	"empty-[]chan":      func() interface{} { return []chan int{} },
+	"embeds-ptr":         func() interface{} { return c07EmbedsPtr{C07Inner: &C07Inner{A: 1}, X: 2} },
+	"embeds-nil-ptr":     func() interface{} { return c07EmbedsPtr{X: 2} },
+	"embeds-named-int":   func() interface{} { return c07EmbedsNamedInt{C07NamedInt: 3, X: 2} },
+	"embeds-named-slice": func() interface{} { return &c07EmbedsNamedSlice{C07NamedSlice: []int{1}, X: 2} },
+	"embeds-iface":       func() interface{} { return []c07EmbedsIface{{X: 2}} },
+	"chan":               func() interface{} { return make(chan int) },
+	"nil-chan":           func() interface{} { var c chan int; return c },
+	"func":               func() interface{} { return func() {} },
+	"nil-func":           func() interface{} { var f func(); return f },
+	"complex64":          func() interface{} { return complex64(complex(1, 2)) },
+	"complex128":         func() interface{} { return complex(1, 2) },
+	"struct-chan":        func() interface{} { return c07BadStruct{A: 1, C: make(chan int)} },
+	"*struct-chan":       func() interface{} { return &c07BadStruct{A: 1} },
+	"map-chan":           func() interface{} { return map[string]chan int{"a": nil} },
+	"map-func":           func() interface{} { return map[string]func(){"a": func() {}} },
+	"[]func":             func() interface{} { return []func(){nil, func() {}} },
+	"[]iface-chan":       func() interface{} { return []interface{}{1, make(chan int), "x"} },
+	"map-iface-complex":  func() interface{} { return map[string]interface{}{"a": complex(1, 1)} },
+	"unsafeptr":          func() interface{} { return unsafe.Pointer(nil) },
+	"uintptr":            func() interface{} { return uintptr(7) },
+	"map[float]int":      func() interface{} { return map[float64]int{1.5: 1} },
+	"map[iface]int":      func() interface{} { return map[interface{}]int{1.5: 1, "a": 2} },
+	"map[struct]int":     func() interface{} { return map[c07Unexported]int{{B: 1}: 1} },
+	"map[[2]int]int":     func() interface{} { return map[[2]int]int{{1, 2}: 1} },
+	"map[*int]int":       func() interface{} { return map[*int]int{new(int): 1} },
+	"unexported":         func() interface{} { return c07Unexported{a: 1, B: 2} },
+	"[2]complex":         func() interface{} { return [2]complex64{} },
+	"nil":                func() interface{} { return nil },
+	"nil-iface-slice":    func() interface{} { return []interface{}{nil, nil} },
+	"typed-nil-ptr":      func() interface{} { var p *c07BadStruct; return p },
+	"ptr-to-ptr-chan":    func() interface{} { c := make(chan int); p := &c; return &p },
+	"struct{}":           func() interface{} { return struct{}{} },
+	"[0]chan":            func() interface{} { return [0]chan int{} },
+	"empty-[]chan":       func() interface{} { return []chan int{} },
 	"iface-holding-func": func() interface{} {
 		return struct{ X interface{} }{X: func() {}}
 	},
